@@ -38,7 +38,7 @@ REGEX_FILES = {
     'C18': ['markdown/util.py', 'markdown/postprocessors.py'],
 }
 
-add('C01', ['C01Spec', 'C01', 'C01b', 'C01c', 'C01d', 'C01e', 'C01f', 'C01g', 'C01h'], ['corr.doc', 'corr.nest', 'corr.nest2', 'corr.brdoc', 'corr.linkdoc'] + PIPE,
+add('C01', ['C01Spec', 'C01', 'C01b', 'C01c', 'C01d', 'C01e', 'C01f', 'C01g', 'C01h', 'C01i'], ['corr.doc', 'corr.nest', 'corr.nest2', 'corr.brdoc', 'corr.linkdoc'] + PIPE,
     'Lean 4: specification `spec : Doc → html` of the construct grammar + print; theorems on the pipeline model for sub-grammars; spec and model both tied to the implementation by correspondence',
     'PARTIAL: the print-then-parse theorem is proved only for the sub-grammar named in Props/C01*.lean; for the rest of the grammar the Lean `spec` is compared with the implementation by correspondence and search only.')
 add('C02', ['C02Block', 'C02Inline', 'C02X', 'C02Big', 'C02Fn'], PIPE + ['corr.extract', 'corr.code', 'corr.attrlist', 'corr.pipelinex'],
@@ -53,7 +53,7 @@ add('C04', ['C04', 'C04Text', 'C04Many'], ['corr.extract', 'corr.htmltok', 'corr
 add('C05', ['C05Block', 'C05', 'C05Amp', 'C05Full', 'C05X', 'C05XFull', 'C14'], PIPE + ['corr.serializer', 'corr.readers', 'corr.c05x'],
     'Lean 4 proofs: vocabulary/void invariant of every tree the block (and inline) model builds + serializer round-trip theorem (strict reader accepts the output and reads back the tree)',
     'PARTIAL: the composition to the final output string is proved as far as Props/C05*.lean state; the `&`/entity-stash case rests on correspondence. "Entity reference" is read as the code reads it (digit-initial names allowed).')
-add('C06', ['C06Block', 'C06Inline', 'C06', 'C06Links'], PIPE,
+add('C06', ['C06Block', 'C06Inline', 'C06', 'C06Links', 'C06X'], PIPE,
     'Lean 4 conservation invariants: letters(tree) ++ letters(pending blocks) is constant through every block processor; inline patterns conserve the flattened text',
     'PARTIAL: block half and inline half proved separately as far as Props/C06*.lean state; `isLetter` is an arbitrary class disjoint from markup characters.')
 add('C07', ['C07Block', 'C07', 'C07X'], PIPE + ['corr.normalize', 'corr.pipelinex'],
@@ -84,14 +84,14 @@ add('C15', ['C15', 'C15Inline', 'C15Forms', 'C15Text'], PIPE,
     'Lean 4 proofs on the block model: the reference-definition recogniser accepts every title spelling, a definition adds exactly one map entry and no node, position independence, label normalisation',
     'PARTIAL: the rendering of the resolved link (inline stage) rests on correspondence where not proved.')
 add('C16', ['C16Tables', 'C16Triggers', 'C16AttrList', 'C16Fenced', 'C16BlockExt', 'C16Order', 'C16Pipeline', 'C16Render',
-            'C16RenderFence', 'C16RenderWiki', 'C16RenderX', 'C16Meta'],
+            'C16RenderFence', 'C16RenderWiki', 'C16RenderX', 'C16RenderG', 'C16Meta'],
     ['corr.tables', 'corr.triggers', 'corr.attrlist', 'corr.code', 'corr.blockext', 'corr.dispatch', 'corr.pipelinex', 'corr.meta'],
     'Lean 4 proofs: table cell splitting/row width/alignment theorems, attribute-list print/parse round trip, entry recognisers of every extension need their trigger + dispatcher inertness theorem (non-interference), fenced-code inertness',
     'PARTIAL: md_in_html, smarty, codehilite, meta, legacy_* are not modelled (search only); documented rendering is proved per component, compositions by correspondence/search.')
-add('C17', ['C17', 'C17Doc', 'C16Order'], ['corr.toc', 'corr.pipelinex'],
+add('C17', ['C17', 'C17Doc', 'C17Src', 'C16Order'], ['corr.toc', 'corr.pipelinex'],
     'Lean 4 proofs: unique() fresh + terminating (pigeonhole), assigned ids pairwise distinct, nest_toc_tokens flatten/outline theorems for all level sequences, footnote id bookkeeping (refs resolve, k refs → k distinct back-links)',
     'slugify and inline rendering of titles are parameters (theorems hold for every slugify); F-C17-1/2 are kernel-checked counterexamples.')
-add('C18', ['C18', 'C18Stash'], ['corr.dispatch', 'corr.inline', 'corr.registry'],
+add('C18', ['C18', 'C18Stash', 'C18X'], ['corr.dispatch', 'corr.inline', 'corr.registry'],
     'Lean 4 proofs: dispatcher order = registry view (C13), run()->False falls through, order facts decided over the regenerated registration table; AtomicString skip and htmlStash restore theorems on the tree/post-processor models',
     'PARTIAL: a third-party processor can do anything; the contract is proved for the core pipeline\'s treatment of what a probe inserts. F-C18-1..4 (bundled tree processors re-reading atomic text) are known findings.')
 add('C19', ['C19'], ['corr.config'],
